@@ -2,7 +2,7 @@
 panicking (AQ-drop), entry points refuse a panicked queue (ORD-C15-refuse), finished pool threads are reaped (ORD-C15-reap)."""
 from collections import defaultdict
 
-from .facts import short, clean_ty
+from .facts import render, short, clean_ty
 from .locks import Held, lock_sites
 from .proto import ACTIVE_QUEUE
 from .rule import ok, bad, undecided
@@ -256,6 +256,19 @@ def c15_reap(ctx):
         out.append(undecided('ORD-C15-reap', key, 'removal or join happens inside a closure: lock context not decided'))
     else:
         H = ctx.held(rf)
+        # an indexed removal is preceded, in the same loop turn, by `index < len()` on the table: indices collected earlier go stale with
+        # the first removal (and Vec::remove panics under the scheduler-wide threads lock)
+        idx_removes = [b for f, b in removes if (rf.blocks[b]['term']['func'].get('fn') or '').endswith(('::Vec::remove', '::Vec::swap_remove'))]
+        cmps = []
+        for b2, blk in enumerate(rf.blocks):
+            tt = blk['term']
+            if tt and tt['k'] == 'switch' and not blk['cleanup']:
+                for s_ in blk['stmts']:
+                    if s_['k'] == 'assign' and s_['rv']['k'] == 'binop' and s_['rv']['op'] in ('Lt', 'Gt', 'Le', 'Ge') and 'len(' in (render(rf.expr_of_operand(s_['rv']['a'])) + render(rf.expr_of_operand(s_['rv']['b']))):
+                        cmps.append(b2)
+        stale = [b for b in idx_removes if rf.blocks[b]['term']['target'] is not None and not rf.must_pass(rf.blocks[b]['term']['target'], set(idx_removes), set(cmps))]
+        if idx_removes and (not cmps or stale):
+            out.append(bad('ORD-C15-reap', key + '|index-fresh', 'a thread is removed from the table by an index that was computed before an earlier removal: with two finished threads in one pass the index is stale (wrong thread removed, or a panic while the threads lock is held, which poisons scheduling for every object)', fn=rf.name))
         okk = all('SchedulerCore.threads' in H.held_at_term(b) for f, b in removes) and all('SchedulerCore.threads' not in H.held_at_term(b) for f, b in joins)
         bj = all(bounded_join(ctx, rf, b) for f, b in joins)
         if okk and bj:
